@@ -14,15 +14,16 @@
 (* The two specifications are joined by path: a handle refers to the file  *)
 (* at its path; Rename rewrites the paths of the handles below the moved   *)
 (* name; Remove, RemoveAll and a Rename that replaces a file turn the      *)
-(* handles of the vanished file into handles of an unlinked file with a    *)
-(* private copy of its bytes (the inode lives on, the name is gone: what   *)
-(* Handles.tla calls link = "none").                                       *)
+(* handles of the vanished file into handles of an unlinked file whose     *)
+(* bytes live on, shared by all handles that had it open (the inode lives  *)
+(* on, the name is gone: what Handles.tla calls link = "none").            *)
 (***************************************************************************)
 EXTENDS Integers, Sequences, FiniteSets, TLC
 
 VARIABLES i,     \* index of the next record
           t,     \* namespace (FSCore tree)
-          hs,    \* handle id -> [p, un, d, dir, h]
+          hs,    \* handle id -> [p, un, dir, h]; un = 0: the file is linked at p; un = g > 0: unlinked, contents in orph[g]
+          orph,  \* unlinked files that still have handles: group id -> bytes (all handles of one file share them)
           dead,  \* the current file system's log was rejected: skip to the next reset
           tid,   \* id of the current file system
           cov    \* specification branches taken by accepted records
@@ -48,10 +49,12 @@ MatchOut(op, m, o) ==
     [] OTHER -> TRUE
 
 FileData(tr, p) == IF p \in DOMAIN tr /\ tr[p].k = "file" THEN tr[p].d ELSE << >>
-Unlink(h) == [h EXCEPT !.un = TRUE, !.d = FileData(t, h.p)]
+\* the handles that have the file at p open share one group: the smallest of their ids
+Group(p) == LET S == { x \in DOMAIN hs : hs[x].un = 0 /\ hs[x].p = p } IN CHOOSE g \in S : \A y \in S : g <= y
+Unlink(h) == [h EXCEPT !.un = Group(h.p)]
 \* what a successful Remove / RemoveAll / Rename does to the open handles
 Adjust(c, h) ==
-  IF h.un THEN h
+  IF h.un # 0 THEN h
   ELSE CASE c.op = "remove" /\ h.p = c.p -> Unlink(h)
          [] c.op = "removeall" /\ IsPre(c.p, h.p) -> Unlink(h)
          [] c.op = "rename" /\ c.p # c.q /\ h.p = c.q -> Unlink(h)                         \* the replaced file
@@ -69,17 +72,25 @@ FsStep ==
             \/ (MatchErr(r.e, Ev.e) /\ (r.e = "ok" => MatchOut(c.op, r.o, Ev.o)))
       t1 == IF nosys THEN t ELSE IF rootany THEN (IF Ev.e = "ok" THEN F!Empty ELSE t) ELSE r.t
       changed == ~nosys /\ Ev.e = "ok" /\ c.op \in {"remove", "removeall", "rename"}
-      hs1 == IF changed THEN [x \in DOMAIN hs |-> Adjust(c, hs[x])] ELSE hs
+      hs0 == IF changed THEN [x \in DOMAIN hs |-> Adjust(c, hs[x])] ELSE hs
+      \* a directory handle may go on listing what it buffered before the namespace changed
+      hs1 == IF ~nosys /\ t1 # t THEN [x \in DOMAIN hs0 |-> [hs0[x] EXCEPT !.stale = TRUE]] ELSE hs0
+      \* the files that lost their name just now keep their bytes for their handles
+      gone == { x \in DOMAIN hs : hs[x].un = 0 /\ hs1[x].un # 0 }
+      orph1 == [g \in (DOMAIN orph) \cup { hs1[x].un : x \in gone } |->
+                  IF g \in DOMAIN orph THEN orph[g] ELSE FileData(t, hs[g].p)]
       opened == ~nosys /\ c.op = "open" /\ Ev.e = "ok"
-      newh == [p |-> c.p, un |-> FALSE, d |-> << >>, dir |-> (c.p \in DOMAIN t1 /\ t1[c.p].k = "dir"),
+      newh == [p |-> c.p, un |-> 0, stale |-> FALSE, dir |-> (c.p \in DOMAIN t1 /\ t1[c.p].k = "dir"),
                h |-> [s |-> "open", acc |-> c.f.acc, app |-> c.f.ap, off |-> 0]]
   IN /\ IF ok THEN /\ t' = t1
                    /\ hs' = IF opened THEN (Ev.hid :> newh) @@ hs1 ELSE hs1
+                   /\ orph' = orph1
                    /\ dead' = FALSE
                    /\ cov' = cov \cup {IF nosys THEN c.op \o "/not-offered" ELSE r.b}
              ELSE /\ PrintT(<<"REJECT", tid, i, "fs", c.op, r.b, "expected", r.e, "observed", IF MatchErr(r.e, Ev.e) THEN "different-output" ELSE Ev.e>>)
-                  /\ dead' = TRUE
-                  /\ UNCHANGED <<t, hs, cov>>
+                  \* a query changes nothing whatever it answered: the log stays in step with the model and is checked further
+                  /\ dead' = (c.op \notin {"stat", "readdir", "readfile"})
+                  /\ UNCHANGED <<t, hs, orph, cov>>
 
 \* ---- handle records ----------------------------------------------------------------------------
 HMatch(op, r, ev) ==
@@ -100,16 +111,18 @@ HStep ==
   LET hid == Ev.h
       hr  == hs[hid]
       op  == Ev.op
-      data == IF hr.un THEN hr.d ELSE FileData(t, hr.p)
+      data == IF hr.un # 0 THEN orph[hr.un] ELSE FileData(t, hr.p)
       ps  == [data |-> data, link |-> "f", hs |-> <<hr.h>>]
       call == HN!C(op, 1, Ev.n, Ev.off, Ev.bs, Ev.wh, "RO", FALSE, FALSE)
       r   == HN!Eval(ps, call)
       nosys == Ev.e = "ENOSYS"
       \* directory handles: only their life cycle and the membership of what they list are checked here (paging: DirH.tla)
       closed == hr.h.s = "closed"
-      kids == IF hr.un \/ hr.p \notin DOMAIN t THEN {} ELSE { [n |-> x[Len(x)], k |-> t[x].k] : x \in F!Kids(t, hr.p) }
+      kids == IF hr.un # 0 \/ hr.p \notin DOMAIN t THEN {} ELSE { [n |-> x[Len(x)], k |-> t[x].k] : x \in F!Kids(t, hr.p) }
       dirok == CASE op = "close"   -> IF closed THEN Ev.e # "ok" ELSE Ev.e = "ok"
-                 [] op = "readdir" -> IF closed THEN Ev.e # "ok" ELSE (Ev.e \in {"ok", "EOF"} /\ (hr.un \/ Ev.ls \subseteq kids))
+                 [] op = "readdir" -> IF closed THEN Ev.e # "ok"
+                                      ELSE IF hr.un # 0 THEN TRUE   \* a removed directory: listing it may fail or list nothing
+                                      ELSE (Ev.e \in {"ok", "EOF"} /\ (hr.stale \/ Ev.ls \subseteq kids))
                  [] op = "stat"    -> IF closed THEN Ev.e # "ok" ELSE (Ev.e = "ok" /\ Ev.sk = "dir")
                  [] OTHER          -> TRUE
       ok == IF nosys THEN TRUE ELSE IF hr.dir THEN dirok ELSE HMatch(op, r, Ev)
@@ -118,40 +131,41 @@ HStep ==
       newh == IF nosys THEN hr.h
               ELSE IF hr.dir THEN (IF op = "close" /\ ~closed THEN [hr.h EXCEPT !.s = "closed"] ELSE hr.h)
               ELSE IF applies THEN r.st.hs[1] ELSE hr.h
-      chmod == ~nosys /\ op = "chmod" /\ Ev.e = "ok" /\ ~hr.un /\ hr.p \in DOMAIN t /\ hr.p # << >>
-      t1 == IF ~hr.un /\ ~hr.dir /\ newdata # data THEN [t EXCEPT ![hr.p].d = newdata, ![hr.p].mt = "*"] ELSE t
+      chmod == ~nosys /\ op = "chmod" /\ Ev.e = "ok" /\ hr.un = 0 /\ hr.p \in DOMAIN t /\ hr.p # << >>
+      t1 == IF hr.un = 0 /\ ~hr.dir /\ newdata # data THEN [t EXCEPT ![hr.p].d = newdata, ![hr.p].mt = "*"] ELSE t
       t2 == IF chmod THEN [t1 EXCEPT ![hr.p].perm = Ev.perm] ELSE t1
   IN /\ IF hid \notin DOMAIN hs
         THEN /\ PrintT(<<"REJECT", tid, i, "h", Ev.op, "unknown-handle", "expected", "-", "observed", Ev.e>>)
-             /\ dead' = TRUE /\ UNCHANGED <<t, hs, cov>>
+             /\ dead' = TRUE /\ UNCHANGED <<t, hs, orph, cov>>
         ELSE IF ok
         THEN /\ t' = t2
-             /\ hs' = [hs EXCEPT ![hid].h = newh, ![hid].d = IF hr.un THEN newdata ELSE @]
+             /\ hs' = [hs EXCEPT ![hid].h = newh]
+             /\ orph' = IF hr.un # 0 /\ ~hr.dir THEN [orph EXCEPT ![hr.un] = newdata] ELSE orph
              /\ dead' = FALSE
              /\ cov' = cov \cup {IF nosys THEN op \o "/not-offered" ELSE IF hr.dir THEN "dirhandle/" \o op ELSE r.b}
         ELSE /\ PrintT(<<"REJECT", tid, i, "h", op, IF hr.dir THEN "dirhandle/" \o op ELSE r.b, "expected", IF hr.dir THEN "-" ELSE r.e,
                         "observed", IF ~hr.dir /\ (r.e = Ev.e \/ (r.e = "ok" /\ Ev.e = "EOF" /\ r.may)) THEN "different-data" ELSE Ev.e>>)
              /\ dead' = TRUE
-             /\ UNCHANGED <<t, hs, cov>>
+             /\ UNCHANGED <<t, hs, orph, cov>>
 
 \* ---- the line -----------------------------------------------------------------------------------
-Init == /\ i = 1 /\ t = F!Empty /\ hs = NoHandles /\ dead = FALSE /\ tid = 0 /\ cov = {}
+Init == /\ i = 1 /\ t = F!Empty /\ hs = NoHandles /\ orph = NoHandles /\ dead = FALSE /\ tid = 0 /\ cov = {}
 Step ==
   /\ i <= Len(E)
   /\ i' = i + 1
-  /\ CASE Ev.k = "reset" -> /\ t' = F!Empty /\ hs' = NoHandles /\ dead' = FALSE /\ tid' = Ev.id /\ UNCHANGED cov
-       [] dead           -> UNCHANGED <<t, hs, dead, tid, cov>>
+  /\ CASE Ev.k = "reset" -> /\ t' = F!Empty /\ hs' = NoHandles /\ orph' = NoHandles /\ dead' = FALSE /\ tid' = Ev.id /\ UNCHANGED cov
+       [] dead           -> UNCHANGED <<t, hs, orph, dead, tid, cov>>
        [] Ev.k = "inv"   -> \* a name that is no path at all: ErrInvalid (or not offered), nothing changes (NameGate.tla has the details)
                             /\ IF Ev.e \in {"EINVAL", "ENOSYS"} THEN dead' = FALSE
                                ELSE PrintT(<<"REJECT", tid, i, "fs", Ev.op, "invalid-name", "expected", "EINVAL", "observed", Ev.e>>) /\ dead' = TRUE
-                            /\ UNCHANGED <<t, hs, tid, cov>>
+                            /\ UNCHANGED <<t, hs, orph, tid, cov>>
        [] Ev.k = "fs"    -> FsStep /\ UNCHANGED tid
        [] Ev.k = "h"     -> HStep /\ UNCHANGED tid
 Done == /\ i = Len(E) + 1
         /\ PrintT(<<"BRANCHES", cov>>)
-        /\ i' = i + 1 /\ UNCHANGED <<t, hs, dead, tid, cov>>
+        /\ i' = i + 1 /\ UNCHANGED <<t, hs, orph, dead, tid, cov>>
 Next == Step \/ Done
-Spec == Init /\ [][Next]_<<i, t, hs, dead, tid, cov>>
+Spec == Init /\ [][Next]_<<i, t, hs, orph, dead, tid, cov>>
 
 \* the namespace the log leads through is always a well-formed tree
 WFInv == F!WF(t)
